@@ -221,6 +221,40 @@ func c15orders(kvs []c15kv, full bool) [][]c15kv {
 	return out
 }
 
+func c15bigMatrix() string {
+	var b strings.Builder
+	b.WriteString(`{"setup":{`)
+	for d := 0; d < 7; d++ {
+		if d > 0 {
+			b.WriteByte(',')
+		}
+		fmt.Fprintf(&b, `"dim%d":[`, d)
+		for v := 0; v < 21; v++ {
+			if v > 0 {
+				b.WriteByte(',')
+			}
+			fmt.Fprintf(&b, `"v%d"`, v)
+		}
+		b.WriteByte(']')
+	}
+	b.WriteString(`},"adjustments":[`)
+	for a := 0; a < 13; a++ {
+		if a > 0 {
+			b.WriteByte(',')
+		}
+		b.WriteString(`{"with":{`)
+		for d := 0; d < 7; d++ {
+			if d > 0 {
+				b.WriteByte(',')
+			}
+			fmt.Fprintf(&b, `"dim%d":"a%d"`, d, a)
+		}
+		b.WriteString(`},"soft_fail":true}`)
+	}
+	b.WriteString(`]}`)
+	return b.String()
+}
+
 func c15run(w *report.W) {
 	extrasList := [][]c15kv{
 		nil,
@@ -230,12 +264,14 @@ func c15run(w *report.W) {
 		{{"", `null`}},
 		{{"steps", `[]`}, {"name", `"n"`}, {"id", `"i"`}},
 		{{"Command", `"x"`}, {"wait ", `"x"`}, {"types", `"wait"`}},
+		// a large but well-formed matrix (7 dimensions of 21 values, 13 adjustments): an extra key like any other
+		{{"matrix", c15bigMatrix()}},
 		// poisoned: values that make the decoder of some kind fail
 		{{"env", `{"A":{"b":"c"}}`}},
 		{{"key", `["a","b"]`}},
 		{{"steps", `["frobnicate"]`}, {"label", `{"x":1}`}},
 	}
-	poisonedFrom := 7
+	poisonedFrom := 8
 	types := c15types // the last entry is an explicit empty type: present, and not a known name
 	for mask := 0; mask < 1<<10; mask++ {
 		has := map[string]bool{}
@@ -327,6 +363,24 @@ func c15run(w *report.W) {
 		case "block", "input", "manual":
 			want = "input"
 		}
+		// the exported constructor behind scalar steps, called directly: same kinds, and an unknown scalar comes back as an
+		// unknown step together with a *warning* (not a hard error) that identifies the unknown type
+		if w.Take("NewScalarStep|" + s) {
+			w.P.Evaluations++
+			var st pipeline.Step
+			var err error
+			if pan := report.Catch(func() { st, err = pipeline.NewScalarStep(s) }); pan != "" {
+				w.Violate(report.Violation{Kind: "scalar-panic", Case: fmt.Sprintf("NewScalarStep(%q)", s), Detail: pan, Size: 1})
+			} else {
+				got := c15kindOf(st)
+				switch {
+				case want == "unknown:type" && (got != "unknown" || !warning.Is(err) || !errors.Is(err, pipeline.ErrUnknownStepType)):
+					w.Violate(report.Violation{Kind: "scalar-constructor", Case: fmt.Sprintf("NewScalarStep(%q)", s), Detail: fmt.Sprintf("got %s step, err=%v (is a warning: %v); want an unknown step with a warning wrapping ErrUnknownStepType", got, err, warning.Is(err)), Size: 1})
+				case want != "unknown:type" && (got != want || err != nil):
+					w.Violate(report.Violation{Kind: "scalar-constructor", Case: fmt.Sprintf("NewScalarStep(%q)", s), Detail: fmt.Sprintf("got %s step, err=%v; want %s, nil", got, err, want), Size: 1})
+				}
+			}
+		}
 		sb, _ := json.Marshal(s)
 		for _, inGrp := range []bool{false, true} {
 			doc := `{"steps":[` + string(sb) + `]}`
@@ -355,10 +409,10 @@ func init() {
 	register(&report.Check{
 		ID: "C15",
 		Rule: "finite table, fully enumerated: every subset of the ten kind-determining keys (well-typed values) x `type` in {absent, 9 known names, " +
-			"unknown, wrong case, near miss, the empty string} x 10 extra-key sets (unknown nested key, key+label, empty-string key, aliases+steps, look-alike keys, and three 'poisoned' sets whose values the decoder of some kind rejects - " +
+			"unknown, wrong case, near miss, the empty string} x 11 extra-key sets (unknown nested key, key+label, empty-string key, aliases+steps, look-alike keys, a 7x21 matrix with 13 adjustments, and three 'poisoned' sets whose values the decoder of some kind rejects - " +
 			"nested env mapping, list-valued key, unknown child step + mapping-valued label: there the step may also fall back to unknown with a warning, never to another known kind) x key orders " +
 			"(all permutations up to 3-4 keys, rotations of sorted and reversed beyond), each parsed as a top-level step and as the only child of a group; " +
-			"plus all scalar step strings built from <=2 pieces of a 19-piece alphabet. Distinct = distinct document text; non-trivial = more than one key.",
+			"plus all scalar step strings built from <=2 pieces of a 19-piece alphabet, through Parse and through the exported NewScalarStep. Distinct = distinct document text; non-trivial = more than one key.",
 		Assumptions: []string{
 			"a non-string `type` value is a hard error and outside the table (the statement is silent)",
 			"a group whose child is unknown may itself be downgraded to an unknown step (DESIGN §8); the warning must still identify the sentinel",
